@@ -197,6 +197,21 @@ def run(ctx):
             detail = ("a match is left out only when its rule has no fixer; consumer: %s" % (cons[1].name if cons else "?")) if ok else \
                 "a fixable match can be left out of the payload (None returned / Diff::generate skipped on the fixer arm, bb%s): the edit is announced by --json but never offered to the accept loop" % (stray or "path")
             break
+        if detail == "no closure calling Diff::generate found":
+            # loop form: `for (rule, m) in matches { let Some(fixer) = … else { continue }; diffs.push((Diff::generate(..), rule)) }`
+            g = prog.inlined(md)
+            gen = [c for c in g.calls if c.best.endswith("Diff::<'n>::generate") and c.bb in g.live_blocks and g.in_loop(c.bb)]
+            fx = [c for c in g.calls if c.name == "as_ref" and any("fixer" in field_path(o.proj) for ff, o in ultimate_roots(prog, g, c.args[0], TRANSPARENT | {"deref"}))]
+            heads = [c.bb for c in g.calls if c.name == "next" and g.in_loop(c.bb)]
+            pushes = [c.bb for c in g.calls if c.name in ("push", "extend", "insert") and g.in_loop(c.bb)]
+            if gen and fx and heads and pushes:
+                arms = option_arms(g, fx[0])
+                skip = any(path_avoiding(g, sb, [c.bb for c in gen], heads) for sb in arms["some"])
+                unpushed = any(path_avoiding(g, c.bb, pushes, heads) for c in gen)
+                leaves = any(set(g.return_blocks()) & set(g.reachable_from(sb, stop=heads)) for sb in arms["some"])
+                ok = bool(arms["some"]) and not skip and not unpushed and not leaves
+                detail = "loop form: on the fixer arm every iteration reaches Diff::generate and the push, and the loop is not left" if ok else \
+                    "a fixable match can be left out of the payload (loop form: generate skipped=%s, not pushed=%s, loop left early=%s)" % (skip, unpushed, leaves)
         ctx.ob("R1", "match_rule_diff_on_file keeps every fixable match", ok, detail, where=md.loc())
     # the accept loop drops a diff that starts before the end of the last accepted one: the list it receives must be in
     # ascending order. Fix diffs are produced in document order by the scan; whatever is merged into them afterwards
